@@ -133,6 +133,16 @@ def bfsCmd (st : BState) : List (List Char) → Option (BState × List (List Cha
     | "bfs.map", [] =>
         let ps := sortStrings (st.w.infos.map (·.1))
         some (st, ps.flatMap (fun p => p :: showInfoOpt ((st.w.infos.lookup p).join)))
+    | "bfs.persisttext", [] =>
+        -- the text `MarshalJSON` writes for the tracked map (Model/JsonText.lean `persistText`), with what
+        -- the harness cannot reproduce masked on both sides: sizes of directories and links, mtimes of
+        -- links (instants stamped during the case are 0 in the model anyway)
+        let mask : Path × Option Info → Path × Option Info := fun e =>
+          (e.1, e.2.map (fun i => match i.kind with
+            | .file => i
+            | .dir => { i with size := 0 }
+            | .link => { i with size := 0, mtime := .fresh }))
+        some (st, [BFS.JsonText.persistText (st.w.infos.map mask)])
     | "bfs.reload", [] =>
         -- MarshalJSON, process restart, UnmarshalJSON into a fresh BackupFS over the same filesystems
         some ({ st with w := restart st.w }, [s2l "ok"])      -- Model/Restart.lean
